@@ -201,36 +201,53 @@ impl Spec {
     /// side with the final options (result discarded), or, half as often, in the middle of the setter history. A
     /// rendering is a function of the symbol it is given and the option values, not of what the builder drew before.
     pub fn svg_builder(&self) -> SvgBuilder {
+        self.svg_builder_for(None)
+    }
+    pub fn image_builder(&self) -> ImageBuilder {
+        self.image_builder_for(None)
+    }
+    /// `target` = the symbol the caller is going to render: half of the earlier uses of a used builder then draw THAT
+    /// symbol (in the middle of the setter history, i.e. with other option values than the final ones) instead of a
+    /// blank one, so the measured rendering is a second rendering of the same matrix by the same builder after its
+    /// options changed.
+    pub fn svg_builder_for(&self, target: Option<&fast_qr::QRCode>) -> SvgBuilder {
         let mut rng = Rng::new(oracle::rng::fnv(self.describe().as_bytes()) ^ 0x0bde);
         let mut b = SvgBuilder::default();
         let hist = self.noisy_history(&mut rng);
         let used = rng.below(6);
         let side = 17 + 4 * [1usize, 2, 7, 20, 40, 1 + rng.below(40)][rng.below(6)];
+        let blank = fast_qr::QRCode::default(side);
+        let same = target.is_some() && rng.chance(1, 2);
         for (i, op) in hist.iter().enumerate() {
-            if used == 2 && i == hist.len() / 2 {
-                let _ = std::panic::catch_unwind(std::panic::AssertUnwindSafe(|| b.to_str(&fast_qr::QRCode::default(side))));
+            if (used == 2 || (same && used == 3)) && i == hist.len() / 2 {
+                let q = if same { target.unwrap() } else { &blank };
+                let _ = std::panic::catch_unwind(std::panic::AssertUnwindSafe(|| b.to_str(q)));
             }
             apply_op(&mut b, op);
         }
         if used < 2 {
-            let _ = std::panic::catch_unwind(std::panic::AssertUnwindSafe(|| b.to_str(&fast_qr::QRCode::default(side))));
+            let _ = std::panic::catch_unwind(std::panic::AssertUnwindSafe(|| b.to_str(&blank)));
         }
         b
     }
-    pub fn image_builder(&self) -> ImageBuilder {
+    pub fn image_builder_for(&self, target: Option<&fast_qr::QRCode>) -> ImageBuilder {
         let mut rng = Rng::new(oracle::rng::fnv(self.describe().as_bytes()) ^ 0x0bde);
         let mut b = ImageBuilder::default();
         let hist = self.noisy_history(&mut rng);
         let used = rng.below(6);
         let side = 17 + 4 * [1usize, 2, 3, 5, 7, 1 + rng.below(8)][rng.below(6)];
+        let blank = fast_qr::QRCode::default(side);
+        // (only symbols that are cheap to rasterise twice)
+        let same = target.map_or(false, |q| q.size <= 65) && rng.chance(1, 2);
         for (i, op) in hist.iter().enumerate() {
-            if used == 2 && i == hist.len() / 2 {
-                let _ = std::panic::catch_unwind(std::panic::AssertUnwindSafe(|| b.to_pixmap(&fast_qr::QRCode::default(side))));
+            if (used == 2 || (same && used == 3)) && i == hist.len() / 2 {
+                let q = if same { target.unwrap() } else { &blank };
+                let _ = std::panic::catch_unwind(std::panic::AssertUnwindSafe(|| b.to_pixmap(q)));
             }
             apply_image_op(&mut b, op);
         }
         if used < 2 {
-            let _ = std::panic::catch_unwind(std::panic::AssertUnwindSafe(|| b.to_pixmap(&fast_qr::QRCode::default(side))));
+            let _ = std::panic::catch_unwind(std::panic::AssertUnwindSafe(|| b.to_pixmap(&blank)));
         }
         b
     }
